@@ -229,7 +229,11 @@ def check_sentence_lines(ctx: Ctx) -> None:
         # merge statement guarded by the short-line test, and the pop paired with it
         merges = [n for n in body if n.kind == "stmt" and ((isinstance(n.ast, ast.AugAssign) and norm(n.ast.target) == f"{L}[-1]") or (
             isinstance(n.ast, ast.Assign) and len(n.ast.targets) == 1 and norm(n.ast.targets[0]) == f"{L}[-1]"
-            and isinstance(n.ast.value, ast.BinOp) and isinstance(n.ast.value.op, ast.Add) and norm(n.ast.value).startswith(f"{L}[-1] +")))]
+            and isinstance(n.ast.value, ast.BinOp) and isinstance(n.ast.value.op, ast.Add) and norm(n.ast.value).startswith(f"{L}[-1] +")) or (
+            # lines[-1] = f"{lines[-1]} {...}": the same concatenation as an f-string
+            isinstance(n.ast, ast.Assign) and len(n.ast.targets) == 1 and norm(n.ast.targets[0]) == f"{L}[-1]"
+            and isinstance(n.ast.value, ast.JoinedStr) and n.ast.value.values and isinstance(n.ast.value.values[0], ast.FormattedValue)
+            and n.ast.value.values[0].conversion == -1 and n.ast.value.values[0].format_spec is None and norm(n.ast.value.values[0].value) == f"{L}[-1]"))]
         def removals(x: Node) -> int:
             """how many times the statement takes the first line off a list: X.pop(0), X = X[1:], del X[0]"""
             k_ = sum(1 for c in flow.calls_in(x) if isinstance(c.func, ast.Attribute) and c.func.attr == "pop")
@@ -1042,6 +1046,24 @@ def check_indents(ctx: Ctx) -> None:
 
         ok1 = any(mentions(n, pi) for n in first)
         ok2 = any(mentions(n, ps) for n in rest)
+        if not (ok1 and ok2):
+            # ... or in one pass: "\n".join((first if i == 0 else rest) + line for i, line in enumerate(lines))
+            def from_param(e_: ast.AST, at_: Node, param: str) -> bool:
+                return any(isinstance(x, ast.Name) and (x.id == param or ("param", param) in origins(prog, f, x, at_)) for x in ast.walk(e_))
+
+            for n in flow.cfg.nodes:
+                for ex in flow.node_exprs(n):
+                    for g_ in [x for x in ast.walk(ex) if isinstance(x, (ast.GeneratorExp, ast.ListComp)) and len(x.generators) == 1]:
+                        gen = g_.generators[0]
+                        if not (isinstance(gen.iter, ast.Call) and isinstance(gen.iter.func, ast.Name) and gen.iter.func.id == "enumerate"
+                                and isinstance(gen.target, ast.Tuple) and len(gen.target.elts) == 2 and all(isinstance(t_, ast.Name) for t_ in gen.target.elts)):
+                            continue
+                        i_, line_ = gen.target.elts[0].id, gen.target.elts[1].id
+                        e_ = g_.elt
+                        if isinstance(e_, ast.BinOp) and isinstance(e_.op, ast.Add) and isinstance(e_.right, ast.Name) and e_.right.id == line_ \
+                                and isinstance(e_.left, ast.IfExp) and isinstance(e_.left.test, ast.Compare) and norm(e_.left.test) in (f"{i_} == 0", f"0 == {i_}"):
+                            if from_param(e_.left.body, n, pi) and from_param(e_.left.orelse, n, ps):
+                                ok1 = ok2 = True
         ctx.ob("R-LOSSLESS-L8", f"{f.qual} :: first line gets initial_indent, later lines subsequent_indent", ok1 and ok2,
                "lines[0] must be prefixed with the initial indent and lines[1:] with the subsequent indent", where(f, f.node))
     wf = width_wrapper(ctx)
